@@ -11,7 +11,7 @@ TECHNIQUE = ('runtime monitoring: the real refactor_reference() is driven on gen
              'free-variable walk for alias isolation and variable capture, identity case')
 RULE = ('Boolean expressions and predicates with 0-3 aliases placed at every depth and slot (operands, both sides of '
         'implies, quantifier bodies and domains, function arguments, indices): exhaustive propositional+quantifier '
-        'grammar over atoms p, q, True, False, @A.b, @A.v > 0, r(@i), @i > @A.v (<= 2 connectives fully, 3 sampled in '
+        'grammar over atoms p, q, True, False, @A.b, @A.v > 0, r(@i), @i > @A.v, @i < @A.v, zs[@i] > @A.v (<= 2 connectives fully, 3 sampled in '
         'quick; <= 3 fully in thorough) plus random typed terms; each refactored for every alias present and one '
         'absent alias. Non-trivial = input mentions the alias and f1 is not literally True; distinct = input shape x '
         'alias.')
@@ -38,6 +38,9 @@ def atoms(scope):
     for v in scope:
         out.append(('bin', '>', A.var(v), A.num('0')))
         out.append(('bin', '>', A.var(v), ('field', A.var('A'), 'v')))
+        # witnesses disjoint from those of `@v > 0` on two-member domains; the variable only inside an index
+        out.append(('bin', '<', A.var(v), ('field', A.var('A'), 'v')))
+        out.append(('bin', '>', ('index', A.fld('zs'), A.var(v)), ('field', A.var('A'), 'v')))
     return out
 
 
@@ -77,7 +80,7 @@ def grid():
         for q in (True, False):
             for xs in ([], [0], [0, 1], [1, 2]):
                 for b, v in ((True, 0), (False, 1), (True, 2)):
-                    envs.append(E.Env({'p': p, 'q': q, 'xs': xs, 'ys': [] if xs else [1], 'x': len(xs)},
+                    envs.append(E.Env({'p': p, 'q': q, 'xs': xs, 'ys': [] if xs else [1], 'x': len(xs), 'zs': [1, 0, 2]},
                                       {'A': {'b': b, 'v': v, 'ys': [v] if b else []}}))
     return envs
 
